@@ -192,6 +192,11 @@ def build_program(r, decl, nvals):
                     b[fn] = nv
                     break
         pairs.append((a, b))
+    # pairs that differ in several fields at once: only these can tell in which order the fields are compared
+    for k in range(3):
+        a = {fn: gen_value(r, ft) for fn, ft in decl["fields"]}
+        b = {fn: gen_value(r, ft) for fn, ft in decl["fields"]}
+        pairs.append((a, b))
     main = []
     exp = []
     for i, v in enumerate(vals):
